@@ -141,13 +141,32 @@ def _sugar(ck, fx):
     try:
         ex, paths = run_function(fx, "parser::AST::operation", [("var", "operator"), ("var", "left"), ("var", "right")])
         ok = False
+        n_paths = 0
         why = "unexpected shape"
         for p in paths:
             t = p["out"][1] if p["out"][0] == "val" else None
             if t and t[0] == "ctor" and t[2] == "CallMethod":
                 f = dict(t[3])
                 args = f["arguments"]
-                ok = f["object"] == ("var", "left") and args == ("app", "array", (("var", "right"),)) and V.mentions(f["name"], ("var", "operator"))
+                if args[0] == "obj":
+                    from ..symex import vec_contents
+                    vc = vec_contents(args, p["eff"])
+                    if vc is not None:
+                        args = ("app", "array", vc)
+                name_ok = V.mentions(f["name"], ("var", "operator"))
+                if not name_ok:
+                    # the executor resolved the spelling per operator: it must be that operator's own spelling
+                    from ..tables import simple_enum_table
+                    tab = simple_enum_table(fx, fx.body("parser::Operator::as_str"), "parser::Operator") if fx.body("parser::Operator::as_str") else None
+                    var = [e["args"][0][2][1][1] for e in p["eff"] if e["k"] == "assume" and e["args"][1] == ("lit", True) and e["args"][0][0] == "app"
+                           and e["args"][0][1] == "is_variant" and e["args"][0][2][0] == ("var", "operator")]
+                    nm = f["name"]
+                    while nm[0] == "ctor" and len(nm[3]) == 1:
+                        nm = nm[3][0][1]
+                    name_ok = bool(tab) and bool(var) and nm == ("lit", tab.get(var[-1]))
+                ok_p = f["object"] == ("var", "left") and args == ("app", "array", (("var", "right"),)) and name_ok
+                n_paths += 1
+                ok = ok_p if n_paths == 1 else (ok and ok_p)
                 why = "a op b ≡ CallMethod{object: a, name: <spelling of op>, arguments: [b]}: %s" % ok
         ck.ob("R14.sugar", "operators are method calls", ok, "", why)
         ck.fn("parser::AST::operation")
@@ -158,16 +177,37 @@ def _sugar(ck, fx):
     b = fx.body("<parser::Operator as std::fmt::Display>::fmt")
     ok = False
     if ck.anchor("R14.sugar", "Display for Operator", b):
+        def is_as_str(x):
+            x = peel(x)
+            while x.get("k") in ("AddrOf", "Unary"):
+                x = peel(x["e"])
+            return x.get("k") in ("MethodCall", "Call") and callee_name(x) == "parser::Operator::as_str"
+        writes = []
         for n, ps in walk_body(b):
             if n.get("k") == "FormatArgs":
                 from ..census import fmt_pieces
-                a0 = peel(n["args"][0]) if n["args"] else {}
-                ok = fmt_pieces(n) == "{0}" and a0.get("k") == "MethodCall" and callee_name(a0) == "parser::Operator::as_str"
-        ck.ob("R14.sugar", "operator method name = its spelling (as_str)", ok, "", "Display for Operator writes exactly as_str(): %s" % ok)
+                writes.append(fmt_pieces(n) == "{0}" and bool(n["args"]) and is_as_str(n["args"][0]))
+            elif n.get("k") == "MethodCall" and (callee_name(n) or "").startswith("std::fmt::Formatter") and n["name"] in ("write_str", "pad"):
+                writes.append(bool(n["args"]) and is_as_str(n["args"][0]))
+        ok = len(writes) == 1 and writes[0]
+        ck.ob("R14.sugar", "operator method name = its spelling (as_str)", ok, "", "Display for Operator writes exactly as_str() (one write!/write_str/pad of it): %s" % ok)
     b = fx.body("<parser::Identifier as std::convert::From<parser::Operator>>::from")
     if ck.anchor("R14.sugar", "Identifier::from(Operator)", b):
-        ok = any(n.get("k") == "MethodCall" and n["name"] == "to_string" for n, ps in walk_body(b))
-        ck.ob("R14.sugar", "Identifier::from(Operator) uses to_string()", ok, "", "Identifier(op.to_string()): %s" % ok)
+        param = None
+        for q in b["params"]:
+            if q.get("k") == "Binding":
+                param = q["lid"]
+        def on_param(x):
+            x = peel(x)
+            while x.get("k") in ("AddrOf", "Unary"):
+                x = peel(x["e"])
+            return x.get("k") == "Path" and (x.get("res") or {}).get("k") == "Local" and x["res"]["lid"] == param
+        via_display = any(n.get("k") == "MethodCall" and n["name"] == "to_string" and on_param(n["recv"]) for n, ps in walk_body(b))
+        via_as_str = any(n.get("k") in ("MethodCall", "Call") and callee_name(n) == "parser::Operator::as_str" and on_param(n["recv"] if n.get("k") == "MethodCall" else n["args"][0]) for n, ps in walk_body(b))
+        others = [callee_name(n) for n, ps in walk_body(b) if n.get("k") in ("MethodCall", "Call") and n.get("callee") and not (callee_name(n) or "").startswith(("std::", "core::", "alloc::", "<T as std::", "<str as ", "<std::", "parser::Operator::as_str",
+                                                                                                     "<parser::Identifier as std::convert::From<&str>>::from", "<parser::Identifier as std::convert::From<std::string::String>>::from"))]
+        ok = (via_display or via_as_str) and not others
+        ck.ob("R14.sugar", "Identifier::from(Operator) uses to_string()", ok, "", "the identifier is the operator's own spelling (op.to_string() through Display, or op.as_str() made a String): %s%s" % (ok, "" if not others else "; also calls %s" % others))
 
 
 def _arity(ck, fx):
